@@ -6,7 +6,7 @@ with the C01/C02 postconditions (rows of J are vector-Jacobian products of one-h
 is the vjp of the cotangent w — the [T] contract of torch.autograd.backward(tensors, grad_tensors = w)."""
 from .aggs import SPECS, build_check
 
-CHECKS = [build_check("C05", SPECS[k], clauses=("rejects", "post", "span")) for k in ("Constant", "Sum", "Mean")]
+CHECKS = [build_check("C05", SPECS[k], clauses=("rejects", "post", "span", "stateless", "dtype", "shape")) for k in ("Constant", "Sum", "Mean")]
 
 
 def _with_backward():
